@@ -126,6 +126,16 @@ func (ds *dataStore) flush(chunk int, force bool) error {
 	ds.Unlock()
 	// logger.Infof("flushing %d records to data %d", n, chunk)
 
+	// nothing buffered for this chunk (somebody else has flushed it meanwhile:
+	// Close, GC): leave its file alone, it may not even exist any more
+	dc := &ds.chunks[chunk]
+	dc.Lock()
+	nbuffered := len(dc.wbuf)
+	dc.Unlock()
+	if nbuffered == 0 {
+		return nil
+	}
+
 	w, err := ds.GetStreamWriter(chunk, true)
 	if err != nil {
 		logger.Fatalf("fail to open data file to flush, stop! err: %v", err)
